@@ -1,5 +1,7 @@
 CONSTANTS
   Exprs = {"e1", "e2", "e3"}
+  MaxMult = 2
+  MultisetDiff = FALSE
   MaxLoads = 6
   DiffByValue = TRUE
   GlobalUnmanage = TRUE
